@@ -130,16 +130,16 @@ def num_of(v):
 
 
 def py_eq(a, b):
-    """Python a == b under A-EQ: numeric tower by value, everything else by canonical form."""
+    """Python a == b under A-EQ: equality of canonical forms (kn).  bool/int are identified by the kn
+    axioms; int/float cross-type equality (1 == 1.0) is not modelled (A-FLOAT)."""
     if a.eq(b):
         return z3.BoolVal(True)
-    return z3.If(z3.And(numlike(a), numlike(b)), num_of(a) == num_of(b),
-                 z3.If(z3.Or(numlike(a), numlike(b)), False, kn(a) == kn(b)))
+    return kn(a) == kn(b)
 
 
 def key_norm(v):
     """dict/set key canonicalisation: 1 == True == 1.0 collapse; other values through kn."""
-    return z3.If(numlike(v), vreal(num_of(v)), kn(v))
+    return kn(v)
 
 
 def kn_axioms(vs):
